@@ -636,7 +636,7 @@ def build_fn(unit, item, imp, fnitem, spec: Fn, cover=False):
     # R3: Lazy statics
     if unit.lazy_names:
         names = '|'.join(unit.lazy_names)
-        body, n1 = _code_sub(body, r'\(\s*\*\s*(' + names + r')\s*\)', r'lazy::\1()')
+        body, n1 = _code_sub(body, r'(?<![\w>])\(\s*\*\s*(' + names + r')\s*\)', r'lazy::\1()')
         body, n2 = _code_sub(body, r'\*\s*(' + names + r')\b(?!\s*\()', r'lazy::\1()')
         body, n3 = _code_sub(body, r'&\s*(' + names + r')\b(?!\s*[\(:])', r'&lazy::\1()')
         if n1 + n2 + n3:
@@ -910,6 +910,8 @@ def build_unit(unit: Unit, cover=False, prelude_dir=None, skip=()):
             rt = re.sub(r'(#\[derive\([^)]*?)\b' + dname + r'\s*,\s*', r'\1', rt)
             rt = re.sub(r'(#\[derive\([^)]*?),\s*' + dname + r'\b', r'\1', rt)
             rt = re.sub(r'#\[derive\(\s*' + dname + r'\s*\)\]', '', rt)
+        for (rule_, rx_, rp_) in getattr(unit, "raw_subst", ()):
+            rt, _n = _code_sub(rt, rx_, rp_)
         parts.append(f"\n// ===== verbatim {rf} :: {rkind} {rname} (R17: field visibility widened)\n" + rt + "\n")
     if unit.lemmas:
         parts.append("\n// ===== unit lemmas\n" + fill(unit.lemmas, unit.params) + "\n")
